@@ -323,6 +323,15 @@ func (idx *RoaringMetadataIndex) queryCategorical(filter Filter) (*roaring.Bitma
 
 		return result, nil
 
+	case OpGreaterThan, OpGreaterThanOrEqual, OpLessThan, OpLessThanOrEqual, OpRange:
+		// A numeric comparison on a field that no document carries (yet) is not
+		// an error: no document can satisfy it. It stays an error on a field
+		// that holds categorical values.
+		if idx.getExistenceBitmap(filter.Field).IsEmpty() {
+			return roaring.New(), nil
+		}
+		return nil, fmt.Errorf("unsupported operator for categorical field: %s", filter.Operator)
+
 	default:
 		return nil, fmt.Errorf("unsupported operator for categorical field: %s", filter.Operator)
 	}
